@@ -4,6 +4,7 @@ import (
 	"strings"
 	"fmt"
 	"go/token"
+	"go/types"
 
 	"golang.org/x/tools/go/ssa"
 )
@@ -147,16 +148,88 @@ func (w *World) paramCtxEnv(fn *ssa.Function) Env {
 			}
 		}
 	}
+	// call sites through a function value: an entry of a constant table of
+	// functions called as `table[x](…, x, …)` receives, for x, only the indices at
+	// which the table holds this function
+	if n := w.CG.Nodes[fn]; n != nil {
+		seenSite := map[ssa.CallInstruction]bool{}
+		for _, e := range n.In {
+			c, ok := e.Site.(*ssa.Call)
+			if !ok || c.Call.StaticCallee() != nil || c.Call.IsInvoke() || seenSite[c] || e.Caller.Func == nil || !w.inPkg(e.Caller.Func) {
+				continue
+			}
+			seenSite[c] = true
+			if len(c.Call.Args) != len(fn.Params) {
+				continue
+			}
+			sites++
+			idxVal, at := w.ctabFuncIndices(c.Call.Value, fn)
+			f := w.flow(e.Caller.Func)
+			for i, p := range fn.Params {
+				if _, ok := typeRange(w, p.Type()); !ok {
+					continue
+				}
+				s, _ := f.ValueAt(c.Call.Args[i], c.Block())
+				if s == nil {
+					unknown[i] = true
+					continue
+				}
+				if idxVal != nil && c.Call.Args[i] == idxVal {
+					s = s.Intersect(at)
+				}
+				sets[i] = sets[i].Union(s)
+			}
+		}
+	}
 	if sites == 0 {
 		return nil
 	}
 	env := Env{}
+	names := map[string]int{}
+	for _, p := range fn.Params {
+		if _, ok := typeRange(w, p.Type()); ok {
+			names[p.Name()]++ // blank parameters share the name "_"
+		}
+	}
 	for i, p := range fn.Params {
-		if sets[i] != nil && !unknown[i] {
+		if sets[i] != nil && !unknown[i] && names[p.Name()] == 1 {
 			env["<p:"+p.Name()+">"] = sets[i]
 		}
 	}
 	return env
+}
+
+// ctabFuncIndices: v is `table[x]` read out of a constant table of functions;
+// returns x and the set of indices at which the table holds fn.
+func (w *World) ctabFuncIndices(v ssa.Value, fn *ssa.Function) (ssa.Value, ISet) {
+	g, steps, ok := w.ctabValueChain(v)
+	if !ok {
+		return nil, nil
+	}
+	var idx ssa.Value
+	for _, s := range steps {
+		if s.index != nil {
+			if idx != nil {
+				return nil, nil
+			}
+			idx = s.index
+		}
+	}
+	if idx == nil {
+		return nil, nil
+	}
+	cell, _ := w.cvTable(g)
+	var at ISet
+	for i := int64(0); i < 1<<16; i++ {
+		leaf, ok := w.ctabResolve(cell, steps, func(ssa.Value) (int64, bool) { return i, true })
+		if !ok {
+			break
+		}
+		if leaf.k == 'f' && leaf.fn == fn {
+			at = append(at, IV{bi(i), bi(i)})
+		}
+	}
+	return idx, at.norm()
 }
 
 // ruleLookAhead.
@@ -165,8 +238,19 @@ func (w *World) ruleLookAhead(r *Report, rule string) {
 	n := 0
 	var covered ISet
 	for _, fn := range w.SrcFuncs() {
-		recv := fn.Signature.Recv()
-		if recv == nil || !namedIs(recv.Type(), hessianPath, "Decoder") {
+		// the Decoder's methods, and functions handed the Decoder explicitly (the
+		// arms of a tag switch kept as entries of a table of functions)
+		onDecoder := false
+		if recv := fn.Signature.Recv(); recv != nil {
+			onDecoder = namedIs(recv.Type(), hessianPath, "Decoder")
+		} else {
+			for _, p := range fn.Params {
+				if _, isPtr := p.Type().(*types.Pointer); isPtr && namedIs(p.Type(), hessianPath, "Decoder") {
+					onDecoder = true
+				}
+			}
+		}
+		if !onDecoder {
 			continue
 		}
 		tag := w.tagSymbolOf(fn)
@@ -290,41 +374,8 @@ func (w *World) ruleHeaderSiblings(r *Report, rule string) {
 		got, pos := firstRead(fn, fn.Blocks[:1])
 		r.add(rule, name+" · first read after the header tag", pos, got == "(*Decoder).readType", "first stream read is "+got)
 	}
-	rm := w.fn("(*Decoder).readMap")
-	if rm == nil {
-		r.undecided(rule, "(*Decoder).readMap", "-", "anchor not found")
-		return
-	}
-	tag := w.tagSymbolOf(rm)
-	if tag == nil {
-		r.undecided(rule, "(*Decoder).readMap", "-", "no tag symbol")
-		return
-	}
-	f := w.flow(rm)
-	var blocks []*ssa.BasicBlock
-	for _, b := range rm.Blocks {
-		if s, _ := f.ValueAt(tag, b); s != nil && s.Equal(single('M')) {
-			blocks = append(blocks, b)
-		}
-	}
-	got, pos := firstRead(rm, blocks)
-	ok := got == "(*Decoder).readType"
-	fact := "first stream read on the 'M' arm is " + got
-	if ok {
-		// and its error is consumed
-		for _, b := range blocks {
-			for _, in := range b.Instrs {
-				if c, isC := in.(*ssa.Call); isC && c.Call.StaticCallee() != nil && fnName(c.Call.StaticCallee()) == got {
-					cons, cf := w.errConsumed(c, errOpts{})
-					if !cons {
-						ok = false
-						fact += "; its error is dropped: " + cf
-					}
-				}
-			}
-		}
-	}
-	r.add(rule, "(*Decoder).readMap · 'M' arm first read", pos, ok, fact)
+	// the 'M' arm of the map-field reader: on the path explorer (rules_maphdr_px.go)
+	w.ruleMapFieldTypeRead(r, rule)
 }
 
 var _ = token.ADD
